@@ -464,8 +464,15 @@ pub fn make(plan: &str, seed: u64, count: usize, tier: &str, wave: u64) -> (Vec<
             }
             if nf > 0 {
                 let pf = prof_for("fields", tier, wave).unwrap();
-                for (k, (g, _)) in profile_grammars(&pf, seed, nf, wave, &mut stats).into_iter().enumerate() {
+                for (k, (g, _)) in profile_grammars(&pf, seed, nf - nf / 3, wave, &mut stats).into_iter().enumerate() {
                     specs.push(spec(format!("f{:04}", k), plan, g));
+                }
+                // and grammars with their own Whitespace rule (its failures are real attempts too)
+                let mut pw = prof_for("ws", tier, wave).unwrap();
+                pw.p_custom_ws = 230;
+                pw.p_memoize = 0;
+                for (k, (g, _)) in profile_grammars(&pw, seed, nf / 3, wave, &mut stats).into_iter().enumerate() {
+                    specs.push(spec(format!("w{:04}", k), plan, g));
                 }
             }
             specs.extend(leftrec_specs(seed, nl, wave, "l", &mut stats));
